@@ -44,6 +44,8 @@ type C13Case struct {
 	BrokenB []string
 	ConvB   []string
 	Fatal   bool // Dirty additionally holds a conflict that must make the run fail (C19 kind)
+	// CLI: the stop-on-error clause is also observed at the built binary (`list --fail` next to other options)
+	CLI bool `json:",omitempty"`
 }
 
 func c13Inject(t *rapid.T, l string, docs []string, fatal bool) (files []C12File, broken, conv []string) {
@@ -106,7 +108,7 @@ func worldDocStrings(w *World) []string {
 
 func genC13(t *rapid.T) *C13Case {
 	w := genAnyWorld(t)
-	c := &C13Case{Clean: w.YAML(), Fatal: rapid.IntRange(0, 5).Draw(t, "fatal") == 0}
+	c := &C13Case{Clean: w.YAML(), Fatal: rapid.IntRange(0, 5).Draw(t, "fatal") == 0, CLI: rapid.IntRange(0, 3).Draw(t, "cli") == 0}
 	wb := editWorld(t, w)
 	c.CleanB = wb.YAML()
 	c.Dirty, c.Broken, c.Conv = c13Inject(t, "a", worldDocStrings(w), c.Fatal)
@@ -237,7 +239,32 @@ func checkC13(c *C13Case, st *VStats) *VFailure {
 			if f := fatalImpliesError(what+" (stop on error)", so.Errs, so.Err, len(so.Conns)); f != nil {
 				return f
 			}
+			// the option next to other options of the same invocation
+			sx := RunList(dirty, ListOpts{ViaInfos: via, StopOnError: true, Exposure: true})
+			if sx.Panic != nil {
+				return &VFailure{Msg: fmt.Sprintf("%s (stop on error, exposure) panicked: %v", what, sx.Panic), Sig: "panic"}
+			}
+			if len(sx.Conns) != 0 || len(sx.Exposed) != 0 {
+				return vfail("%s with stop-on-error and exposure analysis returned a partial report (%d connections, %d exposed peers) although %d malformed items are present", what, len(sx.Conns), len(sx.Exposed), nBad)
+			}
 			st.Class("stop-on-error clause checked")
+		}
+	}
+	if c.CLI && nBad > 0 && os.Getenv("VERIF_CLI") != "" {
+		for _, extra := range [][]string{{"-o", "txt"}, {"--exposure"}, {"-o", "json", "--exposure"}, {"-o", "csv"}} {
+			args := append([]string{"list", "--dirpath", dirty, "--fail", "-q"}, extra...)
+			so, se, code := runCLI(args...)
+			st.Class("CLI invocation")
+			if code < 0 || code > 1 || strings.Contains(se, "panic:") {
+				return vfail("`k8snetpolicy %s` crashed (exit %d): %s", strings.Join(args, " "), code, lastLines(se, 3))
+			}
+			csvRows := 0
+			if extra[len(extra)-1] == "csv" {
+				csvRows = len(strings.Split(strings.TrimSpace(so), "\n")) - 1 // below the header
+			}
+			if strings.Contains(so, "=>") || strings.Contains(so, `"src"`) || csvRows > 0 {
+				return vfail("`k8snetpolicy %s` (stop on first error) printed a partial report although %d malformed items are present:\n%s", strings.Join(args, " "), nBad, lastLines(so, 6))
+			}
 		}
 	}
 	if !c.Fatal {
